@@ -104,7 +104,7 @@ Example C08_nonvacuous :
 Proof. exact (conj ex_prob_ok (conj ex_smooth_convex (conj ex_params_ok (conj ex_minimiser ex_runs)))). Qed.
 
 (* ====================================================================== C08 ON THE WHOLE-RUN MODEL ======================
-   (9)-(14): the rate as a theorem about FistaLoop.fista = the WHOLE of FISTASolver::operator() (all Lipschitz modes, l1, m >= 0, stop
+   (9)-(15): the rate as a theorem about FistaLoop.fista = the WHOLE of FISTASolver::operator() (all Lipschitz modes, l1, m >= 0, stop
    chain, exit), the model that the whole-run correspondence Corr_FISTA / lib/vf/props/FISTA.py ties to the real solver run by run.
    Route: the potential argument redone on the progress-callback records of FistaLoop (invariants rec_ok / chain of FistaLoopProofs),
    reusing FistaProofs' key inequality and potential algebra; Fista.v's skeleton is not involved.
@@ -188,6 +188,18 @@ Section C08_FistaLoop.
                      (ffixed P = false \/ fneed P = true ->
                       jpsih (fr_it r) = f (jxh (fr_it r)) /\ jpsih (fr_it r) + jh (fr_it r) = F n f l1 (jxh (fr_it r)))) (fo_log o).
   Proof. exact (ARGS fistaloop_reported). Qed.
+  (* (15) a-priori step-size bound with backtracking: L is doubled only when the quadratic upper bound is violated, which forces L < Lf
+     (descent lemma), so at EVERY record L_k <= max(L_init, 2 Lf) and γ_k >= Lγ_factor / max(L_init, 2 Lf)  (any mode, any acceleration flag);
+     hence the iteration count of (13) with NO hypothesis on the step sizes of the run *)
+  Theorem C08_fistaloop_stepsize_lower_bound : forall fuel o, run fuel = FDone o ->
+    Forall (fun r => jL (fr_it r) <= Rmax (L_init psi_grad grad_psi P x_in) (2 * Lf) /\
+                     fp_Lgamma P / Rmax (L_init psi_grad grad_psi P x_in) (2 * Lf) <= jgam (fr_it r)) (fo_log o).
+  Proof. exact (ARGS fistaloop_L_bounded). Qed.
+  Theorem C08_fistaloop_iterations_apriori : forall fuel o, run fuel = FDone o -> fp_noaccel P = false ->
+    forall (η : R) (N : nat), 0 < η ->
+    sqrt (2 * R2 / (fp_Lgamma P / Rmax (L_init psi_grad grad_psi P x_in) (2 * Lf) * η)) <= INR N ->
+    Forall (fun r => (N <= fr_k r + 1)%nat -> gap r <= η) (fo_log o).
+  Proof. exact (ARGS fistaloop_iterations_apriori). Qed.
 End C08_FistaLoop.
 Print Assumptions C08_fistaloop_rate.
 Print Assumptions C08_fistaloop_rate_every_loop_head.
@@ -196,8 +208,10 @@ Print Assumptions C08_fistaloop_noaccel_monotone_and_rate.
 Print Assumptions C08_fistaloop_iterations.
 Print Assumptions C08_fistaloop_iterations_fixed_step.
 Print Assumptions C08_fistaloop_reported_values.
+Print Assumptions C08_fistaloop_stepsize_lower_bound.
+Print Assumptions C08_fistaloop_iterations_apriori.
 
-(* non-vacuity of (9)-(14):
+(* non-vacuity of (9)-(15):
    (a) m = 0, fixed step: the instance of C08_nonvacuous (box [-1,1] x R, l1 weight ½) — all hypotheses hold and, for every max_iter,
        the run completes with a non-empty log;
    (b) m = 1, backtracking from L_0 = ½ < Lf = 2, criterion ApproxKKT: ψ(x) = ½x² + ½max(x−1,0)², the augmented Lagrangian of
